@@ -50,7 +50,8 @@ SIGNATURES = {}
 
 FEAT = gen.Feat(inherit=True, items=False, uncached=True, objrefs=True, shadow=False, max_top=2, max_child=1,
                 max_cells=2, max_rank=3, depth=1, tick=False)
-MODES = ["save_all_k", "save_all_k", "save_seq", "save_seq", "load_all_k", "corrupt", "pickle_save", "pickle_load"]
+MODES = ["save_all_k", "save_all_k", "save_all_k_perm", "save_seq", "save_seq", "load_all_k", "corrupt", "pickle_save",
+         "pickle_load"]
 
 
 def plan(tier):
@@ -229,7 +230,8 @@ def _run(case, out, root):
                 m.zip(dest)
             else:
                 m.write(dest)
-        return INJECTOR.run(work, fn, arm_at)
+        # mode save_all_k_perm: the file of the k-th operation keeps refusing (PermissionError) until the save ends
+        return INJECTOR.run(work, fn, arm_at, persistent=(case["mode"] == "save_all_k_perm" and arm_at is not None))
 
     def stamp(v):
         m.ver = v
@@ -263,7 +265,7 @@ def _run(case, out, root):
     def wrote_new_file(log):
         return any(ev == "open" and md and ("w" in str(md) or "x" in str(md) or "a" in str(md)) for ev, _, md in log[:-1])
 
-    if mode == "save_all_k":
+    if mode in ("save_all_k", "save_all_k_perm"):
         ver += 1
         stamp(ver)
         snap = snapshot()
